@@ -800,6 +800,19 @@ type cerr =
 | EReadReduction
 | EOuterPrivate
 | EBlockReduction
+| EUnsupportedOp
+
+type fixes = { fx_ops : bool; fx_nest : bool; fx_rhs : bool }
+
+(** val no_fixes : fixes **)
+
+let no_fixes =
+  { fx_ops = false; fx_nest = false; fx_rhs = false }
+
+(** val all_fixes : fixes **)
+
+let all_fixes =
+  { fx_ops = true; fx_nest = true; fx_rhs = true }
 
 (** val mark :
     var -> iop option -> (alist * cerr list) -> alist * cerr list **)
@@ -855,11 +868,32 @@ let rec nested = function
 let node_assignments tgt body =
   aset (node_marks body) tgt None
 
+(** val merge_errs : alist -> alist -> cerr list **)
+
+let merge_errs acc new0 =
+  flat_map (fun p ->
+    match snd p with
+    | Some o ->
+      (match aget acc (fst p) with
+       | Some o0 ->
+         (match o0 with
+          | Some q -> if iop_eqb o q then [] else EInconsistent :: []
+          | None -> [])
+       | None -> [])
+    | None -> []) new0
+
+(** val final_merge : var -> stmt -> alist * cerr list **)
+
+let final_merge tgt body =
+  fold_left (fun st nb ->
+    let na = node_assignments (fst nb) (snd nb) in
+    ((aupdate (fst st) na), (app (snd st) (merge_errs (fst st) na))))
+    (nested body) ((node_assignments tgt body), [])
+
 (** val final_assignments : var -> stmt -> alist **)
 
 let final_assignments tgt body =
-  fold_left (fun acc nb -> aupdate acc (node_assignments (fst nb) (snd nb)))
-    (nested body) (node_assignments tgt body)
+  fst (final_merge tgt body)
 
 (** val expr_vars : expr -> var list **)
 
@@ -885,19 +919,28 @@ let inplace_vars al =
                      | Some _ -> (fst p) :: []
                      | None -> []) al
 
-(** val reads_bad : var list -> stmt -> bool **)
+(** val reads_bad : bool -> var list -> stmt -> bool **)
 
-let rec reads_bad red = function
-| SSeq (a, b) -> (||) (reads_bad red a) (reads_bad red b)
+let rec reads_bad rhs red = function
+| SSkip -> false
+| SSeq (a, b) -> (||) (reads_bad rhs red a) (reads_bad rhs red b)
 | SAssign (_, e) -> reads_any red e
+| SInplace (_, _, e) -> (&&) rhs (reads_any red e)
 | SIf (c, t, e) ->
-  (||) ((||) (reads_any red c) (reads_bad red t)) (reads_bad red e)
+  (||) ((||) (reads_any red c) (reads_bad rhs red t)) (reads_bad rhs red e)
 | SLoop (par, _, n0, b) ->
   if par
   then let red' = app red (inplace_vars (node_marks b)) in
-       (||) (reads_any red' n0) (reads_bad red' b)
-  else (||) (reads_any red n0) (reads_bad red b)
-| _ -> false
+       (||) (reads_any red' n0) (reads_bad rhs red' b)
+  else (||) (reads_any red n0) (reads_bad rhs red b)
+
+(** val has_unsupported : alist -> bool **)
+
+let has_unsupported al =
+  existsb (fun p ->
+    match snd p with
+    | Some o -> negb (omp_reduction_op o)
+    | None -> false) al
 
 type clause =
 | CRed of iop
@@ -946,9 +989,9 @@ let classify r x =
 let opt_errs c e =
   if c then e :: [] else []
 
-(** val region_errors : region -> cerr list **)
+(** val region_errors : fixes -> region -> cerr list **)
 
-let region_errors r =
+let region_errors fx r =
   let fa = final_assignments r.r_tgt r.r_body in
   let bm = block_marks r in
   app (match r.r_pre with
@@ -956,12 +999,21 @@ let region_errors r =
        | None -> [])
     (app (node_errs r.r_body)
       (app (flat_map (fun nb -> node_errs (snd nb)) (nested r.r_body))
-        (app
-          (opt_errs (reads_bad (inplace_vars (node_marks r.r_body)) r.r_body)
-            EReadReduction)
-          (app (opt_errs (existsb (amem bm) (akeys fa)) EOuterPrivate)
-            (opt_errs (negb (Nat.eqb (length (inplace_vars bm)) O))
-              EBlockReduction)))))
+        (app (if fx.fx_nest then snd (final_merge r.r_tgt r.r_body) else [])
+          (app
+            (opt_errs
+              (reads_bad fx.fx_rhs (inplace_vars (node_marks r.r_body))
+                r.r_body) EReadReduction)
+            (app
+              (opt_errs
+                ((&&) fx.fx_ops
+                  ((||) (has_unsupported fa)
+                    (existsb (fun nb ->
+                      has_unsupported (node_assignments (fst nb) (snd nb)))
+                      (nested r.r_body)))) EUnsupportedOp)
+              (app (opt_errs (existsb (amem bm) (akeys fa)) EOuterPrivate)
+                (opt_errs (negb (Nat.eqb (length (inplace_vars bm)) O))
+                  EBlockReduction)))))))
 
 (** val w : z -> bool -> z -> z **)
 
@@ -1169,10 +1221,10 @@ let rec wf cls d = function
         | None -> None)
   else None
 
-(** val region_wf : region -> var list option **)
+(** val region_wf : fixes -> region -> var list option **)
 
-let region_wf r =
-  match region_errors r with
+let region_wf fx r =
+  match region_errors fx r with
   | [] ->
     if clause_eqb (classify r r.r_tgt) CFirstLast
     then wf (classify r) (r.r_tgt :: []) r.r_body
